@@ -268,7 +268,7 @@ def replay(pid, path, quiet=False):
         if not quiet:
             print("replay: violation %s: %s" % (r[1], r[2]))
         if r[1] in known_open(pid):
-            print("KNOWN-FINDING: property=%s %s (%s)" % (pid, r[1], known_open(pid)[r[1]].get("what", "")))
+            print("KNOWN-FINDING: property=%s %s (%s)" % (pid, r[1], known_open(pid)[r[1]].get("what", "")[:160]))
             return 0
         print("VIOLATION property=%s replay=%s" % (pid, path))
         if want and r[1] != want:
@@ -288,7 +288,8 @@ def _ensure_env():
         env.setdefault("PYTHONHASHSEED", "0")
         env["DSIM_REEXEC"] = "1"
         env["PYTHONPATH"] = want_pp + (os.pathsep + env["PYTHONPATH"] if env.get("PYTHONPATH") else "")
-        env["PYTHONDONTWRITEBYTECODE"] = "1"
+        env.pop("PYTHONDONTWRITEBYTECODE", None)
+        env["PYTHONPYCACHEPREFIX"] = os.path.join(VERIF_DIR, ".pycache")
         os.execve(sys.executable, [sys.executable] + sys.argv, env)
 
 
@@ -390,7 +391,7 @@ def sweep(pid, tier, base_seed, runs=None, jobs=None, budget_s=None, write_evide
         v = min(full, key=lambda x: len(json.dumps(x["plan"]))) if full else None
         if sig in known:
             print("KNOWN-FINDING: property=%s %s (%s) [%d runs]" %
-                  (pid, sig, known[sig].get("what", ""), len(vs)))
+                  (pid, sig, known[sig].get("what", "")[:160], len(vs)))
             known_matched.append({"signature": sig, "runs": len(vs)})
             continue
         if v is None:
